@@ -257,3 +257,213 @@ def bounded_expand(assertions, size_syms, bound):
     for sname in size_syms:
         out.append(z3.Int(sname) <= bound)
     return out
+
+
+# ------------------------------------------------------------------------------- non-linear abstraction
+_MULR = z3.Function('nl!mul', z3.RealSort(), z3.RealSort(), z3.RealSort())
+_MULI = z3.Function('nl!muli', z3.IntSort(), z3.IntSort(), z3.IntSort())
+_DIVR = z3.Function('nl!div', z3.RealSort(), z3.RealSort(), z3.RealSort())
+
+
+def _is_num(t):
+    return z3.is_int_value(t) or z3.is_rational_value(t)
+
+
+def _nl_terms(fs):
+    """innermost non-linear products / quotients (no non-linear operator strictly inside)"""
+    found = {}
+    seen = {}
+
+    def visit(x):
+        """returns True iff x contains a non-linear operator (at or below x)"""
+        i = x.get_id()
+        if i in seen:
+            return seen[i]
+        if z3.is_quantifier(x):
+            r = visit(x.body())
+            seen[i] = r
+            return r
+        inner = False
+        if z3.is_app(x):
+            for c in x.children():
+                if visit(c):
+                    inner = True
+            k = x.decl().kind()
+            here = False
+            if k == z3.Z3_OP_MUL:
+                nn = [c for c in x.children() if not _is_num(c)]
+                here = len(nn) >= 2
+            elif k == z3.Z3_OP_DIV:
+                here = not _is_num(x.arg(1))
+            if here and not inner:
+                found[i] = x
+            inner = inner or here
+        seen[i] = inner
+        return inner
+    for f in fs:
+        visit(f)
+    return list(found.values())
+
+
+def _abstract_one(t):
+    k = t.decl().kind()
+    if k == z3.Z3_OP_DIV:
+        return _DIVR(t.arg(0), t.arg(1))
+    nums = [c for c in t.children() if _is_num(c)]
+    nn = sorted([c for c in t.children() if not _is_num(c)], key=lambda c: c.sexpr())
+    M = _MULI if z3.is_int(t) else _MULR
+    acc = nn[0]
+    for c in nn[1:]:
+        acc = M(acc, c)
+    for c in nums:
+        acc = c * acc
+    return acc
+
+
+def abstract_nonlinear(fs, max_rounds=6):
+    """replace non-linear products/quotients by uninterpreted applications (commutativity normalised by
+    argument order) and add sign lemmas for them.  Every model of the original is a model of the
+    abstraction, so `unsat` of the abstraction is a proof."""
+    fs = list(fs)
+    for _ in range(max_rounds):
+        terms = _nl_terms(fs)
+        if not terms:
+            break
+        pairs = [(t, _abstract_one(t)) for t in terms]
+        fs = [z3.substitute(f, *pairs) for f in fs]
+    # sign lemmas on the abstracted products
+    lem = []
+    seen = set()
+    stack = list(fs)
+    apps = []
+    while stack:
+        x = stack.pop()
+        i = x.get_id()
+        if i in seen:
+            continue
+        seen.add(i)
+        if z3.is_quantifier(x):
+            continue
+        if z3.is_app(x):
+            if x.decl().name() in ('nl!mul', 'nl!muli'):
+                apps.append(x)
+            stack.extend(x.children())
+    for t in apps:
+        a, b = t.arg(0), t.arg(1)
+        lem += [z3.Implies(z3.And(a >= 0, b >= 0), t >= 0), z3.Implies(z3.And(a <= 0, b <= 0), t >= 0),
+                z3.Implies(z3.And(a >= 0, b <= 0), t <= 0), z3.Implies(z3.And(a <= 0, b >= 0), t <= 0),
+                z3.Implies(z3.And(a > 0, b > 0), t > 0), z3.Implies(z3.Or(a == 0, b == 0), t == 0),
+                z3.Implies(a == 1, t == b), z3.Implies(b == 1, t == a)]
+    # monotonicity between products sharing one factor:  c >= 0 & a <= b  =>  a*c <= b*c
+    byarg = {}
+    for t in apps:
+        for (x, y) in ((t.arg(0), t.arg(1)), (t.arg(1), t.arg(0))):
+            byarg.setdefault(y.get_id(), []).append((x, y, t))
+    for lst in byarg.values():
+        if 2 <= len(lst) <= 6:
+            for p in range(len(lst)):
+                for q in range(len(lst)):
+                    if p != q:
+                        (a, c, ta), (b, _, tb) = lst[p], lst[q]
+                        lem.append(z3.Implies(z3.And(c >= 0, a <= b), ta <= tb))
+                        lem.append(z3.Implies(z3.And(c <= 0, a <= b), ta >= tb))
+    return fs + lem
+
+
+# ------------------------------------------------------------------------------- incremental instantiation
+class Instantiator:
+    """Hypotheses are processed once (NNF, skolemisation, base instances on their own ground terms); each
+    goal then only pays for the instances that involve its own new ground terms."""
+
+    def __init__(self, hyps, rounds=2, max_terms=48):
+        fs = split_conj(nnf_skolem(hyps))
+        self.ground = [f for f in fs if not has_quant(f)]
+        self.quants = [f for f in fs if z3.is_quantifier(f) and f.is_forall()]
+        self.other = [f for f in fs if has_quant(f) and not (z3.is_quantifier(f) and f.is_forall())]
+        self.done = set()
+        self.harvest = TermHarvest()
+        self.harvest.add_formulas(self.ground + self.quants + self.other)
+        self.body_hq = {}
+        self.max_terms = max_terms
+        self.base_terms = []
+        for r in range(rounds):
+            terms = self.harvest.sorted_terms(max_terms)
+            fresh = [t for t in terms if t.get_id() not in {x.get_id() for x in self.base_terms}]
+            if not fresh and r > 0:
+                break
+            new = self._instances(fresh, self.base_terms + fresh)
+            self.base_terms = self.base_terms + fresh
+            if not new:
+                break
+            self.ground.extend(new)
+            self.harvest.add_formulas(new)
+
+    def _instances(self, new_terms, all_terms, cap2=14):
+        out = []
+        for q in list(self.quants):
+            nv = q.num_vars()
+            qid = q.get_id()
+            if qid not in self.body_hq:
+                self.body_hq[qid] = has_quant(q.body())
+            if any(q.var_sort(k).kind() != z3.Z3_INT_SORT for k in range(nv)):
+                continue
+            if nv == 1:
+                combos = [(t,) for t in new_terms]
+            elif nv == 2:
+                a = all_terms[:cap2 * 2]
+                combos = [(x, y) for x in new_terms[:cap2] for y in a] + [(y, x) for x in new_terms[:cap2] for y in a]
+            else:
+                a = all_terms[:6]
+                combos = list(itertools.product(a, repeat=nv)) if new_terms else []
+            for combo in combos:
+                inst = z3.substitute_vars(q.body(), *reversed(combo))
+                key = inst.get_id()
+                if key in self.done:
+                    continue
+                self.done.add(key)
+                if self.body_hq[qid]:
+                    inst = z3.simplify(inst)
+                    if z3.is_true(inst):
+                        continue
+                    for sub in split_conj(nnf_skolem([inst])):
+                        if z3.is_quantifier(sub) and sub.is_forall():
+                            if sub.get_id() not in self.done:
+                                self.done.add(sub.get_id())
+                                self.quants.append(sub)
+                        elif not has_quant(sub):
+                            out.append(sub)
+                        else:
+                            self.other.append(sub)
+                else:
+                    out.append(inst)
+        return out
+
+    def for_goal(self, neg_goal_fs, rounds=2, max_new=40):
+        """instances needed in addition to self.ground for one (skolemised, quantifier-free) negated goal"""
+        h = TermHarvest()
+        h.terms = dict(self.harvest.terms)
+        h.seen = set(self.harvest.seen)
+        before = set(h.terms)
+        h.add_formulas(neg_goal_fs)
+        extra = []
+        known = list(self.base_terms)
+        known_ids = {t.get_id() for t in known}
+        saved_done = set(self.done)
+        saved_quants = list(self.quants)
+        for r in range(rounds):
+            fresh = [t for i, t in h.terms.items() if i not in before and i not in known_ids]
+            fresh.sort(key=lambda t: (len(t.sexpr()), t.sexpr()))
+            fresh = fresh[:max_new]
+            if not fresh:
+                break
+            new = self._instances(fresh, known + fresh)
+            known = known + fresh
+            known_ids |= {t.get_id() for t in fresh}
+            if not new:
+                break
+            extra.extend(new)
+            h.add_formulas(new)
+        # goal-specific instances must not suppress the same instances for the next goal
+        self.done = saved_done
+        self.quants = saved_quants
+        return extra
